@@ -11,6 +11,7 @@ use memchr::arch::all::packedpair::HeuristicFrequencyRank;
 use memchr::memmem::{self, FinderBuilder, Prefilter};
 use serde_json::{json, Value};
 
+#[derive(Clone)]
 pub struct TableRank(pub [u8; 256]);
 impl HeuristicFrequencyRank for TableRank {
     fn rank(&self, b: u8) -> u8 {
@@ -349,11 +350,19 @@ pub fn replay_one(idx: usize, v: &Value, rep: &Report, cnt: &mut Counts, o: &Opt
                 for rr in [rk, (rk + 3) % 7] {
                     let (name, table) = ranker(rr, &n, o.seed.wrapping_add(idx as u64));
                     let entry = format!("build_forward_with_ranker[{name},prefilter={}]", if pf == 0 { "None" } else { "Auto" });
-                    let (r, a) = counted(|| {
+                    // construction from a borrowed needle with a caller-supplied ranker (a 256-byte table, not zero
+                    // sized) and the search: no heap allocation (the collected iteration below is the harness's own Vec)
+                    let (r0, a) = counted(|| {
+                        let f = FinderBuilder::new().prefilter(pfc).build_forward_with_ranker(table.clone(), &n);
+                        opt_to_i(f.find(&h))
+                    });
+                    if r0.is_ok() {
+                        c.alloc(&format!("{entry} (construction + find)"), a);
+                    }
+                    let r = guard(|| {
                         let f = FinderBuilder::new().prefilter(pfc).build_forward_with_ranker(table, &n);
                         (opt_to_i(f.find(&h)), f.find_iter(&h).map(|x| x as i64).take(h.len() + 2).collect::<Vec<_>>())
                     });
-                    let _ = a;
                     match r {
                         Err(m) => rep.finding(Class::Panic, &format!("{entry} panicked: {m}"), c.ctx(&entry)),
                         Ok((fi, seq)) => {
